@@ -296,7 +296,13 @@ void tdigest<T, A>::merge(vector_centroid& buffer, W weight) {
 
 template<typename T, typename A>
 double tdigest<T, A>::weighted_average(double x1, double w1, double x2, double w2) {
-  return (x1 * w1 + x2 * w2) / (w1 + w2);
+  const double x = (x1 * w1 + x2 * w2) / (w1 + w2);
+  // keep the result between the two points in spite of rounding
+  const double lo = std::min(x1, x2);
+  const double hi = std::max(x1, x2);
+  if (x < lo) return lo;
+  if (x > hi) return hi;
+  return x;
 }
 
 template<typename T, typename A>
